@@ -96,6 +96,12 @@ func replayImpl(path string, out func(cmd, obs J)) {
 		case "obs":
 			cmd, obs, _ := w.stepObs(r)
 			out(cmd, obs)
+		case "pjson":
+			cmd, obs, _ := w.stepPatchJSON(r, c["json"])
+			out(cmd, obs)
+		case "jdiff":
+			cmd, obs := stepJDiff(c["src"], c["tgt"])
+			out(cmd, obs)
 		case "nav":
 			var key interface{}
 			if kk, ok := c["key"]; ok {
